@@ -387,11 +387,20 @@ private:
       //       and the seq-cst fence (3)
       XENIUM_THREAD_FENCE(std::memory_order_acquire);
 
+      // The orphans have to be adopted _before_ the epoch is updated. As soon as the new epoch is visible, other
+      // threads can abandon nodes they have retired in the new epoch to the very same orphan list; such nodes
+      // must not be reclaimed yet.
+      auto orphaned_nodes = adopt_orphans(new_epoch);
+
       // (7) - this release-CAS synchronizes-with the acquire-load (5)
       bool success = global_epoch.compare_exchange_strong(
         curr_epoch, new_epoch, std::memory_order_release, std::memory_order_relaxed);
       if (XENIUM_LIKELY(success)) {
-        reclaim_orphans(new_epoch);
+        detail::delete_objects(orphaned_nodes.first);
+      } else if (orphaned_nodes.first != nullptr) {
+        // some other thread has updated the epoch, so we cannot tell whether the adopted nodes are old enough
+        // -> hand them back.
+        orphans[new_epoch % number_epochs].add(orphaned_nodes);
       }
     }
     return new_epoch;
@@ -399,10 +408,13 @@ private:
 
   void add_retired_node(detail::deletable_object* p) { retire_lists[local_epoch_idx].push(p); }
 
-  void reclaim_orphans(epoch_t epoch) {
+  detail::retired_nodes<> adopt_orphans(epoch_t epoch) {
     auto idx = epoch % number_epochs;
-    auto* nodes = orphans[idx].adopt();
-    detail::delete_objects(nodes);
+    detail::retired_nodes<> nodes{orphans[idx].adopt(), nullptr};
+    for (auto* p = nodes.first; p != nullptr; p = p->next) {
+      nodes.last = p;
+    }
+    return nodes;
   }
 
   unsigned critical_entries_since_update = 0;
